@@ -307,7 +307,12 @@ class EnvHandle(object):
         if spec.get("folds"):
             folds = {k: [to_time(a, grid_type), to_time(b, grid_type)] for k, (a, b) in spec["folds"].items()}
         warm = timedelta(seconds=spec["warmup_s"]) if spec.get("warmup_s") is not None else None
-        self.transmitter = Transmitter([grid[i] for i in order], folds, bool(spec.get("markov", False)), warm)
+        grid_list = [grid[i] for i in order]
+        self.transmitter = Transmitter(grid_list, folds, bool(spec.get("markov", False)), warm)
+        if spec.get("grid_shared_with"):
+            # the caller builds another transmitter from the very same list of timesteps and adds timesteps to *that* one
+            other = Transmitter(grid_list)
+            other.add_timesteps([to_time(s, grid_type) for s in spec["grid_shared_with"]])
         self.transmitter.add_events(self.events)
         self._load_frames(spec, ev_type)
         self._load_prices(spec)
@@ -325,6 +330,10 @@ class EnvHandle(object):
         else:
             raise core.HarnessError("unknown state type")
         self.fees = world.build_fees(spec.get("fees"))
+        if spec.get("prior_env"):
+            # another environment (other contracts, default latency) was built on this transmitter before
+            from tradingenv.contracts import ETF
+            TradingEnv(action_space=BoxPortfolio([ETF("ZZPRIOR")]), transmitter=self.transmitter)
         self._make_env()
         self.episodes = []
         self.gen_specs = [self.spec_of_generation()]
@@ -532,6 +541,11 @@ class EnvHandle(object):
                 v = a["v"]
                 if a["as"] == "list":
                     return list(v)
+                if a["as"] == "template" and self.spec["space"]["type"] == "box":
+                    # the caller starts from the space's flat template and fills it in place
+                    w = self.env.action_space.null_action()
+                    w[...] = np.array(v, dtype=np.float64)
+                    return w
                 if a["as"] == "f32":
                     return np.array(v, dtype=np.float32)
                 if a["as"] == "npint":
